@@ -174,6 +174,7 @@ class Run:
         states, gen = self.tlc_counts(out)
         self.cov["traces_validated_against_impl"] += ntr
         self.cov["events_validated"] += nev
+        self.cov["distinct_nontrivial"] = self.cov.get("distinct_nontrivial", 0) + distinct_traces(trace)
         self.cov["stages"].append({"stage": "trace-validation", "label": label, "module": module, "traces": ntr,
                                    "events": nev, "rejected": len(rejected), "wall_s": round(dt, 1)})
         return rejected, out
@@ -263,6 +264,10 @@ class Run:
             cov.update(extra_cov)
         cov.setdefault("evaluations", cov.get("events_validated", 0))
         cov["rule"] = rule
+        if level == "model_checking" and "distinct_nontrivial" in cov:
+            cov["rule"] += ("; distinct_nontrivial = recorded traces (from one reset / round line to the next) of at least 3 "
+                            "events -- or, where a file has no such structure, recorded cases -- counted once when they differ "
+                            "only in times, sequence numbers and storage keys")
         if not cov["samples"]:
             cov["samples"] = ["(no sample recorded)"]
         ev = {"property_id": self.prop, "tier": self.tier, "seed": self.seed, "level": level,
@@ -321,6 +326,52 @@ def trace_counts(path):
             elif '"ev":"header"' not in line:
                 nev += 1
     return (ntr or nev), nev
+
+
+TIMING_KEYS = ("now", "t0", "t1", "t", "seq", "next", "s0", "abs", "off", "at", "tid", "v", "k", "elapsed_ms", "disk", "crashes")
+
+def _strip(x):
+    if isinstance(x, dict):
+        return {k: _strip(v) for k, v in x.items() if k not in TIMING_KEYS}
+    if isinstance(x, list):
+        return [_strip(v) for v in x]
+    return x
+
+def distinct_traces(path):
+    """Number of distinct traces in the file (a trace runs from one reset / round line to the next; traces
+    that differ only in times, sequence numbers and storage keys count once) that hold at least 3 events."""
+    seen, cur, n = set(), [], 0
+    text = open(path).read()
+    if '"ev":"reset"' not in text and '"ev":"round"' not in text:
+        # no trace structure: every line is a case of its own
+        out = set()
+        for line in text.split("\n"):
+            if line.strip() and '"ev":"header"' not in line:
+                try:
+                    out.add(json.dumps(_strip(json.loads(line)), sort_keys=True))
+                except Exception:
+                    out.add(line)
+        return len(out)
+    def close():
+        nonlocal cur
+        if n >= 3:
+            seen.add(hashlib.sha1("\n".join(cur).encode()).hexdigest())
+        cur = []
+    with open(path) as f:
+        for line in f:
+            if '"ev":"header"' in line or not line.strip():
+                continue
+            if '"ev":"reset"' in line or '"ev":"round"' in line:
+                close()
+                n = 0
+                continue
+            try:
+                cur.append(json.dumps(_strip(json.loads(line)), sort_keys=True))
+            except Exception:
+                cur.append(line)
+            n += 1
+    close()
+    return len(seen)
 
 
 def extract_subtrace(path, line):
